@@ -9,7 +9,10 @@ import (
 	"context"
 	"encoding/json"
 	"math"
+	"reflect"
 	"strconv"
+
+	apifu "github.com/ccbrown/api-fu"
 
 	"github.com/ccbrown/api-fu/graphql"
 	"github.com/ccbrown/api-fu/graphql/ast"
@@ -84,6 +87,7 @@ var fieldKinds = []fieldKind{
 	{"p", "", nil},                        // leaf, no cost function (→ defaultCost)
 	{"pn", "N", nil},                      // no cost function (→ defaultCost)
 	{"z", "", nil},                        // leaf, FieldResolverCost(0)
+	{"items", "C", []string{"first", "last"}}, // apifu.Connection with its DEFAULT costs whose edges' `node` is an N (so cost contexts cross it)
 	{"k", "N", []string{"first", "last"}}, // Int arguments; cost {Resolver 1, Context := last ?: first ?: 0} (like defaultConnectionCost)
 }
 
@@ -109,6 +113,22 @@ func costRMC(ctx graphql.FieldCostContext) graphql.FieldCost {
 		fc.Context = context.WithValue(ctx.Context, ctxKey{}, c)
 	}
 	return fc
+}
+
+// itemsConnection: a real default-cost connection (defaultConnectionCost, the `edges` cost function)
+// whose nodes are N objects. One definition is shared by every type that has the field.
+func itemsConnection(nType *graphql.ObjectType) *graphql.FieldDefinition {
+	return apifu.Connection(&apifu.ConnectionConfig{
+		NamePrefix: "Item",
+		ResolveAllEdges: func(ctx graphql.FieldContext) (interface{}, func(a, b interface{}) bool, error) {
+			return []int{}, func(a, b interface{}) bool { return a.(int) < b.(int) }, nil
+		},
+		CursorType: reflect.TypeOf(int(0)),
+		EdgeCursor: func(edge interface{}) interface{} { return edge.(int) },
+		EdgeFields: map[string]*graphql.FieldDefinition{
+			"node": {Type: nType, Cost: graphql.FieldResolverCost(1), Resolve: func(ctx graphql.FieldContext) (interface{}, error) { return nil, nil }},
+		},
+	})
 }
 
 func makeFields(nType *graphql.ObjectType, iType *graphql.InterfaceType) map[string]*graphql.FieldDefinition {
@@ -155,6 +175,7 @@ func makeFields(nType *graphql.ObjectType, iType *graphql.InterfaceType) map[str
 type testTypes struct {
 	query, mutation, n, o *graphql.ObjectType
 	i                     *graphql.InterfaceType
+	items                 *graphql.FieldDefinition
 }
 
 func makeTypes() *testTypes {
@@ -164,12 +185,20 @@ func makeTypes() *testTypes {
 	t.o = &graphql.ObjectType{Name: "O", ImplementedInterfaces: []*graphql.InterfaceType{t.i}, IsTypeOf: func(interface{}) bool { return false }}
 	t.query = &graphql.ObjectType{Name: "Query"}
 	t.mutation = &graphql.ObjectType{Name: "Mutation"}
-	t.i.Fields = makeFields(t.n, t.i)
-	t.n.Fields = makeFields(t.n, t.i)
-	t.o.Fields = makeFields(t.n, t.i)
-	t.query.Fields = makeFields(t.n, t.i)
-	t.mutation.Fields = makeFields(t.n, t.i)
+	t.items = itemsConnection(t.n)
+	t.i.Fields = t.fields()
+	t.n.Fields = t.fields()
+	t.o.Fields = t.fields()
+	t.query.Fields = t.fields()
+	t.mutation.Fields = t.fields()
 	return t
+}
+
+// fields: a fresh field map for one type (the connection definition is shared).
+func (t *testTypes) fields() map[string]*graphql.FieldDefinition {
+	m := makeFields(t.n, t.i)
+	m["items"] = t.items
+	return m
 }
 
 func buildSchema() *graphql.Schema {
@@ -308,7 +337,7 @@ func expectedCost(f *ast.Field, inIntrospection bool, coerced map[string]interfa
 		return costExpr{Src: "c", R: 1} // the edge field the harness's connection declares with FieldResolverCost(1)
 	case "edges":
 		return costExpr{Src: "edges", MCtx: true} // pagination.go:434-442
-	case "things", "thingsF", "thingsB": // apifu.Connection with defaultConnectionCost (pagination.go:226-235)
+	case "things", "thingsF", "thingsB", "items": // apifu.Connection with defaultConnectionCost (pagination.go:226-235)
 		e := costExpr{Src: "conn", R: 1, Set: true, First: argState(f, "first", coerced), Last: argState(f, "last", coerced)}
 		// the harness's own reading: an int `last` decides, else an int `first`, else 0 — null is not an int
 		if n, err := strconv.Atoi(e.Last); err == nil {
